@@ -187,7 +187,8 @@ def check_case(case, collect=None):
             exc_type = FAULT_TYPES[(len(site) + 3 * j + si + (1 if backend == "generated" else 0)) % len(FAULT_TYPES)] \
                 if case.get("vary_exception_type", True) else InjectedFault
             fp = FaultPlan(site, j, exc_type)
-            fm = make_python_functions(fault=fp, sites=sites)
+            log_a = []
+            fm = make_python_functions(fault=fp, sites=sites, log=log_a)
             try:
                 if backend == "interpreter":
                     from dagrt.exec_numpy import NumpyInterpreter
@@ -285,7 +286,8 @@ def check_case(case, collect=None):
                     collect(site, j, backend, si, wrote_before, npers)
                 continue
             try:
-                fm2 = make_python_functions(sites=sites)
+                log_b = []
+                fm2 = make_python_functions(sites=sites, log=log_b)
                 if backend == "interpreter":
                     from dagrt.exec_numpy import NumpyInterpreter
                     fresh = NumpyInterpreter(dag, fm2)
@@ -304,11 +306,18 @@ def check_case(case, collect=None):
                     snap_a = lambda: {n: B.norm(getattr(stepper, a)) for n, a in pattrs.items() if hasattr(stepper, a)}  # noqa: E731
                     snap_b = lambda: {n: B.norm(getattr(fresh, a)) for n, a in pattrs.items() if hasattr(fresh, a)}    # noqa: E731
                 rn = lambda e: e.condition if type(e).__name__ == "StepError" else type(e).__name__   # noqa: E731
+                n_a = len(log_a)
                 ha, _ = B.drive(stepper, {"max_steps": 3, "max_events": 30}, snap_a, rn)
                 hb, _ = B.drive(fresh, {"max_steps": 3, "max_events": 30}, snap_b, rn)
                 d = B.first_difference(ha, hb, "continued stepper", "fresh stepper")
                 if d is not None:
                     problems.append("%s: not resumable: %s" % (where, d))
+                # each stepper calls the functions it was given (the fresh one is a second instance of the same
+                # generated class, with its own function map)
+                calls_a, calls_b = [c[0] for c in log_a[n_a:]], [c[0] for c in log_b]
+                if calls_a != calls_b:
+                    problems.append("%s: not resumable: the continued stepper called its own functions %d time(s), "
+                                    "the fresh stepper its own %d time(s)" % (where, len(calls_a), len(calls_b)))
             except Exception as e:
                 problems.append("%s: resuming raised %s: %s" % (where, type(e).__name__, str(e)[:100]))
             if collect is not None:
